@@ -59,6 +59,7 @@ type c14Case struct {
 	Timeout   string `json:",omitempty"` // forward: GRPC-Timeout header of the request (e.g. "1n": the handler's own deadline passes, the request lives on)
 	OKErr     bool   `json:",omitempty"` // forward: the handler returns a non-nil error whose gRPC status says OK
 	Wrapped   bool   `json:",omitempty"` // forward: the handler adds context to its status error with %w
+	RespToo   bool   `json:",omitempty"` // forward: the failing handler returns a response value next to its error
 	MDOpts    bool   `json:",omitempty"` // forward: the caller asks for response metadata (grpc.Header and grpc.Trailer call options)
 	Renderer  string // "default" | "nothing" | "teapot" | "option-default"
 	Carrier   string // "server" | "mux"
@@ -109,10 +110,14 @@ func c14Forward(c c14Case, o *Outcome) *Outcome {
 		if c.Code == 0 {
 			return &pb.Message{Count: 7}, nil
 		}
-		if c.Wrapped {
-			return nil, fmt.Errorf("lookup failed: %w", status.Error(codes.Code(c.Code), c.Msg))
+		var partial *pb.Message
+		if c.RespToo {
+			partial = &pb.Message{Count: 9, Payload: []byte("partial")}
 		}
-		return nil, status.Error(codes.Code(c.Code), c.Msg)
+		if c.Wrapped {
+			return partial, fmt.Errorf("lookup failed: %w", status.Error(codes.Code(c.Code), c.Msg))
+		}
+		return partial, status.Error(codes.Code(c.Code), c.Msg)
 	}}
 	wantMsg := c.Msg
 	if c.Wrapped && c.Code != 0 {
@@ -305,7 +310,7 @@ func c14HeaderCode(v string) (code uint32, msg string, hasMsg, ok bool) {
 	if strings.HasPrefix(digits, "-") {
 		digits = digits[1:]
 	}
-	if digits == "" || len(digits) > 10 {
+	if digits == "" {
 		return 0, "", false, false
 	}
 	for _, ch := range digits {
@@ -493,7 +498,8 @@ func genC14(t *rapid.T) c14Case {
 		Carrier:   rapid.SampledFrom([]string{"server", "mux"}).Draw(t, "carrier"),
 		Timeout:   rapid.SampledFrom([]string{"", "", "1n", "0m", "1H"}).Draw(t, "timeout"),
 		Wrapped:   rapid.IntRange(0, 3).Draw(t, "wrapped") == 0,
-		MDOpts:    rapid.IntRange(0, 2).Draw(t, "mdopts") == 0}
+		MDOpts:    rapid.IntRange(0, 2).Draw(t, "mdopts") == 0,
+		RespToo:   rapid.IntRange(0, 2).Draw(t, "resptoo") == 0}
 }
 
 func init() { registerReplay("C14", propC14) }
@@ -501,7 +507,7 @@ func init() { registerReplay("C14", propC14) }
 const c14Rule = "exhaustive grid {25 gRPC codes incl. out-of-range} x {request ctx cancelled or not} x {4 renderers} x {Server, HandleServices} (forward: HTTP status by documented table + client recovers exact code) " +
 	"and every HTTP status 100..599 x {Invoke, NewStream} x {empty, text body} without X-GRPC-Status (fallback: OK iff 2xx), plus rapid-drawn codes over all of uint32 with drawn messages; " +
 	"and arbitrary unary replies (HTTP status x X-GRPC-Status present/absent/well-formed/garbage x details headers x content types x bodies: encoded messages whole or cut, random bytes, proxy texts) through a replaying RoundTripper (reply mode; also FuzzUnaryReply in the thorough tier): well-formed non-OK header => exactly that code and message, no header => OK iff 2xx, non-2xx never success, derived OK => success iff the body decodes and then the caller's message is the decoding of the body, never a panic; " +
-	"also generated since the seeded rounds: empty status messages, GRPC-Timeout on the request, wrapped status errors, grpc.Header/grpc.Trailer call options on the recovering client; " +
+	"also generated since the seeded rounds: empty status messages, GRPC-Timeout on the request, wrapped status errors, grpc.Header/grpc.Trailer call options on the recovering client, failing handlers that return a response next to their error; " +
 	"non-trivial = any case except a forward case with code OK; distinct by case hash"
 
 // FuzzUnaryReply: coverage-guided search over unary replies presented to the client.
@@ -513,6 +519,7 @@ func FuzzUnaryReply(f *testing.F) {
 	f.Add(uint16(200), true, "-1:neg", "!!", "", []byte{0x08, 0x01})
 	f.Add(uint16(299), true, "2147483647:max", "", "", []byte{0x0a, 0x03, 1, 2})
 	f.Add(uint16(200), true, ":", "", "", []byte{0xff})
+	f.Add(uint16(245), true, "00000000000", "", "0", []byte("0")) // found by a campaign: a zero of eleven digits is still code 0
 	f.Fuzz(func(t *testing.T, httpStatus uint16, hasGS bool, gs, detail, ct string, body []byte) {
 		c := c14Case{Mode: "reply", HTTP: 100 + int(httpStatus)%500, HasGS: hasGS, GS: gs, CT: ct, Raw: body}
 		if detail != "" {
